@@ -31,7 +31,7 @@ func (c14) Required(tier string) []string {
 	return []string{"B-scribble", "B-resize", "H-reenter", "H-error", "H-nested", "reenter-with-enclosing-buffer", "scribble-inside-callback",
 		// ("reentrant-call-grew-shared-stack", "stack-grown-by-call" and "call-on-prewarmed-stack" look at the
 		// Buffer's own representation: reported, not required - a Buffer that keeps its memory differently must not break the check)
-		"call-after-failed-call", "call-after-depth-limit-exit", "call-after-handler-abort", "input-in-reused-arena", "same-address-same-length-different-bytes", "history-of-10000-calls"}
+		"call-after-failed-call", "call-after-depth-limit-exit", "call-after-handler-abort", "input-in-reused-arena", "same-address-same-length-different-bytes", "history-of-10000-calls", "retry-on-the-completed-message-after-a-partial-one"}
 }
 
 var bufOps = []string{"Valid", "SkipValue", "SkipValueFast", "HandleArrayValues", "HandleObjectValues"}
@@ -134,6 +134,21 @@ func (c14) Gen(r *Rand, sc *Scenario, tier string) {
 				op.Tape = append(op.Tape, mkDec(dError, r.Intn(nErrKinds)))
 			}
 		}
+		if r.Chance(1, 12) && sc.Docs[op.Doc].Len() > 1 && sc.Docs[op.Doc].Len() < 5000 && op.Rep <= 1 {
+			// a message that has only partly arrived: the call fails on the prefix (the rest already sits
+			// behind it in the read buffer), then the caller retries on the completed message at the same address
+			full := sc.Docs[op.Doc].Bytes()
+			k := r.Range(1, len(full)-1)
+			cut := docOf(full[:k], sc.Docs[op.Doc].Class+"-partial")
+			cut.Tail = append([]byte(nil), full[k:]...)
+			sc.Docs = append(sc.Docs, cut)
+			first := op
+			first.Doc = len(sc.Docs) - 1
+			first.B |= 2
+			ops = append(ops, first)
+			op.B |= 2
+			sc.Cfg["retry-after-partial"] = 1
+		}
 		ops = append(ops, op)
 		if r.Chance(1, 8) && sc.Docs[op.Doc].Len() > 0 && sc.Docs[op.Doc].Len() < 5000 {
 			// the caller overwrites its read buffer with a different message of the same length and
@@ -174,9 +189,12 @@ func (c14) Exec(sc *Scenario, st *Stats) *Violation {
 	touched := 0
 	maxLen := 0
 	for _, d := range sc.Docs {
-		if d.Len() > maxLen {
-			maxLen = d.Len()
+		if d.Len()+len(d.Tail) > maxLen {
+			maxLen = d.Len() + len(d.Tail)
 		}
+	}
+	if sc.cfg("retry-after-partial") == 1 {
+		st.probe("retry-on-the-completed-message-after-a-partial-one")
 	}
 	// read buffers that are reused for every call that asks for it: same address every time
 	arenaA, arenaB := make([]byte, maxLen), make([]byte, maxLen)
@@ -187,7 +205,10 @@ func (c14) Exec(sc *Scenario, st *Stats) *Violation {
 		d := sc.Docs[op.Doc]
 		dataA, dataB := d.Bytes(), d.Bytes()
 		if op.B&2 != 0 {
-			dataA, dataB = arenaA[:copy(arenaA, dataA)], arenaB[:copy(arenaB, dataB)]
+			nA, nB := copy(arenaA, dataA), copy(arenaB, dataB)
+			copy(arenaA[nA:], d.Tail) // what has not "arrived" yet is already in the buffer, behind len
+			copy(arenaB[nB:], d.Tail)
+			dataA, dataB = arenaA[:nA], arenaB[:nB]
 			st.probe("input-in-reused-arena")
 			if len(d.Class) > 8 && d.Class[len(d.Class)-8:] == "-samelen" {
 				st.probe("same-address-same-length-different-bytes")
